@@ -145,6 +145,18 @@ def run(ctx):
         cls = asm.cls_by_name("generic:{}:{}".format(kind, enz))
         ctx.guard(check_validate, {"cls": "generic:{}:{}".format(kind, enz), "word": malformed_for(rng, cls, kits)})
     check_3prime(ctx)
+    # a vector whose two overhangs are the same letters (in any case) cannot receive a chain, but it is a record with the
+    # vector structure: what is_valid() says and what the accessors do must agree
+    for enz in asm.pick_enzymes(rng, ctx.budget(40, 1000)):
+        o = gen.ovh(rng, enz)
+        try:
+            w_, _ = gen.gen_vector(rng, enz, o, o, tries=200)
+        except RuntimeError:
+            continue
+        if rng.random() < 0.3:
+            w_ = w_[:len(w_) // 2].lower() + w_[len(w_) // 2:]
+        ctx.guard(check_validate, {"cls": "generic:V:{}".format(enz), "word": gen.rot(w_, rng.randrange(len(w_)))})
+        ctx.note("vector-with-equal-overhangs")
     for enz in asm.pick_enzymes(rng, ctx.budget(200, 8000)):
         g = asm.gen_wellformed(rng, enz, rng.randint(1, 4))
         if g is None:
